@@ -62,6 +62,11 @@ const (
 )
 
 func (p *Parser) rune() rune {
+	if p.r == runeEOF {
+		// Already past the end of the input, or stopped early;
+		// do not move the position any further.
+		return p.r
+	}
 	if p.r == '\n' || p.r == escNewl {
 		// p.r instead of b so that newline
 		// character positions don't have col 0.
